@@ -598,22 +598,52 @@ func blame(sc scenario, e *expr, differs func(*expr) bool) string {
 // ---------------------------------------------------------------- generator
 
 func genLabels(r *verifx.Rng) []int {
+	var ls []int
 	switch r.Pick(3, 3, 2, 1, 1) {
 	case 0:
 		return nil
 	case 1:
-		return []int{r.Range(1, 3)}
+		ls = []int{r.Range(1, 3)}
 	case 2:
 		a := r.Range(1, 3)
 		b := r.Range(1, 3)
 		if a == b {
-			return []int{a}
+			ls = []int{a}
+		} else {
+			ls = []int{a, b}
 		}
-		return []int{a, b}
 	case 3:
-		return []int{1, 2, 3}
+		ls = []int{1, 2, 3}
+	default:
+		return []int{0}
 	}
-	return []int{0}
+	// the same tag more than once: repeated, or by another of its names (canonical id <i>; the legacy alias key<i> is
+	// resolved differently by the engine-side hash and by the storage query unless the custom name is listed too)
+	if r.Chance(1, 3) {
+		n := r.Range(1, 2)
+		for x := 0; x < n; x++ {
+			l := ls[r.Intn(len(ls))]
+			var add int
+			switch r.Pick(2, 1, 1) {
+			case 0:
+				add = l
+			case 1:
+				add = 10 + l%10
+			default:
+				add = 20 + l%10
+			}
+			if l >= 20 && add < 20 && add >= 10 {
+				add = l // key<i> only next to the custom name
+			}
+			at := r.Intn(len(ls) + 1)
+			ls = append(ls[:at], append([]int{add}, ls[at:]...)...)
+		}
+	} else if r.Chance(1, 8) {
+		for i := range ls {
+			ls[i] = 20 + ls[i]%10 // canonical ids only
+		}
+	}
+	return ls
 }
 
 var aggOps = []string{"sum", "min", "max", "avg", "count", "group", "stddev", "stdvar"}
@@ -749,7 +779,7 @@ func genBin(r *verifx.Rng, lod int64, nest int) *expr {
 	if r.Chance(1, 2) {
 		// both sides aggregated to the same label set, the aggregated operands produced in different ways:
 		// agg by (L) (x op x) op agg by (L) (y), agg by (L) (agg without () (x)) op …
-		gl := [][]int{{1}, {2}, {1, 2}, {1, 3}, {3}}[r.Intn(5)]
+		gl := [][]int{{1}, {2}, {1, 2}, {1, 3}, {3}, {1, 1}, {2, 12}, {21, 1}, {2, 1, 2}}[r.Intn(9)]
 		wo := r.Chance(1, 4)
 		mk := func() *expr {
 			var inner *expr
@@ -1200,6 +1230,14 @@ func evalCase(h *verifx.H, r *verifx.Rng, metric *format.MetricMetaValue) {
 		// statistics and the non-trivial rule
 		e.walk(func(x *expr) {
 			for _, n := range x.chain {
+				seen := map[int]bool{}
+				for _, l := range n.labels {
+					if seen[labelIdx(l)] {
+						h.Stat("labels.same-tag-twice", 1)
+						break
+					}
+					seen[labelIdx(l)] = true
+				}
 				switch n.kind {
 				case "agg", "ot":
 					h.Stat("node."+n.kind+"."+n.op, 1)
